@@ -792,6 +792,16 @@ def transform_linear(repo: Repo, chk: Check) -> None:
         if over_results and full and kinds_ok:
             chk.ok("C19.transform-linear", f"{key}:complete-traversal", s_.where(), "every sub-expression of every result is visited; FloorDiv, CeilDiv and Mod raise")
             return
+        # the same as one condition: `if any(<non-linear kind>(e) for e in result.dfs()): raise`
+        for fa in s_.facts:
+            q = norm.qnf(fa.expr) if fa.kind == "atom" else None
+            if q is None or q[0] != "any":
+                continue
+            dom_full = norm.match(T("$r.dfs()"), q[2]) is not None or norm.match(T("$r.walk()"), q[2]) is not None
+            txt = ast.unparse(q[4]) + " ".join(ast.unparse(x) for x in q[3])
+            if over_results and dom_full and all(k in txt for k in NONLIN) and not any(isinstance(n, ast.UnaryOp) and isinstance(n.op, ast.Not) for n in ast.walk(q[4])):
+                chk.ok("C19.transform-linear", f"{key}:complete-traversal", s_.where(), "every sub-expression of every result is visited; FloorDiv, CeilDiv and Mod raise")
+                return
     # form (b): a recursive predicate
     helpers = [n for n in f.node.body if isinstance(n, ast.FunctionDef)]
     rec = [h for h in helpers if any(isinstance(c, ast.Call) and isinstance(c.func, ast.Name) and c.func.id == h.name for c in ast.walk(h))]
